@@ -4,6 +4,8 @@ import (
 	"fmt"
 	"go/ast"
 	"go/token"
+	"go/types"
+	"strings"
 
 	"verif/internal/core"
 	"verif/internal/sym"
@@ -175,3 +177,117 @@ func checkQuadraticMin(c *core.Ctx) {
 	}
 	c.Check(ok, "C07.R6", cons, "stationary point of the interpolating quadratic", fd.Pos(), msg)
 }
+
+// checkCallbackState (C07.R7): a function literal that an optimizer hands to the line search or uses as its constraint test
+// is called several times per iteration with different step lengths. It must compute from the iteration's data afresh on
+// every call: an in-place update of a captured vector or matrix (the receiver is also an operand, e.g. t.VmulS(t, alpha))
+// that is not preceded, in the same call, by an assignment that overwrites it makes the second call start from the result
+// of the first (newton's constraint test shrank the search direction itself, so the step taken was alpha^2 p).
+func checkCallbackState(c *core.Ctx) {
+	c.Rule("C07.R7", "callbacks of the optimizers (line-search objective, constraint test) do not update captured vectors or matrices in place across calls", 4)
+	n := 0
+	ord := map[*ast.FuncDecl]int{}
+	for _, p := range c.LibPkgs() {
+		if !strings.Contains(p.PkgPath, "/algorithm/") {
+			continue
+		}
+		info := p.TypesInfo
+		pkg := p
+		core.EachFunc(p, func(_ *ast.File, fd *ast.FuncDecl) {
+			ast.Inspect(fd.Body, func(nd ast.Node) bool {
+				fl, ok := nd.(*ast.FuncLit)
+				if !ok {
+					return true
+				}
+				// only callbacks with a scalar step parameter (alpha) are called repeatedly per iteration
+				if fl.Type.Params == nil || len(fl.Type.Params.List) != 1 {
+					return true
+				}
+				pt := info.TypeOf(fl.Type.Params.List[0].Type)
+				if pt == nil || !(strings.HasSuffix(namedOfType(pt), "Scalar") || isFloatType(pt)) {
+					return true
+				}
+				n++
+				ord[fd]++
+				cons := c.FuncName(pkg, fd) + fmt.Sprintf(" step-callback#%d", ord[fd])
+				overwritten := map[types.Object]bool{}
+				bad := token.NoPos
+				badText := ""
+				for _, st := range fl.Body.List {
+					ast.Inspect(st, func(m ast.Node) bool {
+						call, ok := m.(*ast.CallExpr)
+						if !ok {
+							return true
+						}
+						sel, ok := call.Fun.(*ast.SelectorExpr)
+						if !ok {
+							return true
+						}
+						id, ok := ast.Unparen(sel.X).(*ast.Ident)
+						if !ok {
+							return true
+						}
+						o := info.Uses[id]
+						if o == nil || (o.Pos() >= fl.Pos() && o.Pos() <= fl.End()) {
+							return true // not captured
+						}
+						tv, ok := info.Types[sel.X]
+						if !ok || !(isVectorish(tv.Type) || strings.HasSuffix(namedOfType(tv.Type), "Matrix")) {
+							return true
+						}
+						if !isWriterMethod(sel.Sel.Name) {
+							return true
+						}
+						inplace := false
+						for _, a := range call.Args {
+							if aid, ok := ast.Unparen(a).(*ast.Ident); ok && info.Uses[aid] == o {
+								inplace = true
+							}
+						}
+						if !inplace {
+							overwritten[o] = true
+							return true
+						}
+						if !overwritten[o] && bad == token.NoPos {
+							bad = call.Pos()
+							badText = types.ExprString(call)
+						}
+						return true
+					})
+				}
+				c.Check(bad == token.NoPos, "C07.R7", cons, "no in-place update of captured state", func() token.Pos {
+					if bad != token.NoPos {
+						return bad
+					}
+					return fl.Pos()
+				}(), "the callback executes "+badText+" on a captured variable without first overwriting it: every further call of the callback in the same iteration starts from the result of the previous call, so the point that is tested or evaluated is not the point for the step length it was given")
+				return true
+			})
+		})
+	}
+	c.Analysed["step_callbacks"] = n
+}
+
+func isFloatType(t types.Type) bool {
+	b, ok := t.Underlying().(*types.Basic)
+	return ok && b.Info()&types.IsFloat != 0
+}
+
+// isWriterMethod: container methods that write their receiver (arithmetic kernels and Set).
+func isWriterMethod(name string) bool {
+	if name == "Set" || name == "Reset" {
+		return true
+	}
+	for _, p := range []string{"V", "M"} {
+		if strings.HasPrefix(name, p) && len(name) > 3 {
+			for _, op := range []string{"add", "sub", "mul", "div", "dot"} {
+				if strings.Contains(strings.ToLower(name), op) {
+					return true
+				}
+			}
+		}
+	}
+	return false
+}
+
+func fset(c *core.Ctx) *token.FileSet { return c.Fset }
